@@ -610,26 +610,20 @@ impl<F: Read + Write + Seek> Package<F> {
         if self.tables.contains_key(&table_name) {
             already_exists!("Table {:?} already exists", table_name);
         }
-        self.insert_rows(
-            Insert::into(COLUMNS_TABLE_NAME).rows(
-                columns
-                    .iter()
-                    .enumerate()
-                    .map(|(index, column)| {
-                        vec![
-                            Value::Str(table_name.clone()),
-                            Value::Int(1 + index as i32),
-                            Value::Str(column.name().to_string()),
-                            Value::Int(column.bitfield()),
-                        ]
-                    })
-                    .collect(),
-            ),
-        )?;
-        self.insert_rows(
-            Insert::into(TABLES_TABLE_NAME)
-                .row(vec![Value::Str(table_name.clone())]),
-        )?;
+        let columns_rows: Vec<Vec<Value>> = columns
+            .iter()
+            .enumerate()
+            .map(|(index, column)| {
+                vec![
+                    Value::Str(table_name.clone()),
+                    Value::Int(1 + index as i32),
+                    Value::Str(column.name().to_string()),
+                    Value::Int(column.bitfield()),
+                ]
+            })
+            .collect();
+        let tables_rows: Vec<Vec<Value>> =
+            vec![vec![Value::Str(table_name.clone())]];
         let validation_rows: Vec<Vec<Value>> = columns
             .iter()
             .map(|column| {
@@ -671,13 +665,63 @@ impl<F: Read + Write + Seek> Package<F> {
                 ]
             })
             .collect();
+        // Make sure that every catalog row can be stored before inserting any
+        // of them, so that a column definition that the catalog tables cannot
+        // represent is refused without leaving a half-created table behind.
         let long_string_refs = self.string_pool.long_string_refs();
         let table = Table::new(table_name.clone(), columns, long_string_refs);
-        self.tables.insert(table_name, table);
-        self.insert_rows(
-            Insert::into(VALIDATION_TABLE_NAME).rows(validation_rows),
-        )?;
-        Ok(())
+        for (catalog_name, rows) in [
+            (VALIDATION_TABLE_NAME, &validation_rows),
+            (COLUMNS_TABLE_NAME, &columns_rows),
+            (TABLES_TABLE_NAME, &tables_rows),
+        ] {
+            let catalog = if catalog_name == table_name {
+                // (This happens when creating the _Validation table itself.)
+                &table
+            } else {
+                match self.tables.get(catalog_name) {
+                    Some(catalog) => catalog,
+                    None => {
+                        not_found!("Table {:?} does not exist", catalog_name)
+                    }
+                }
+            };
+            for values in rows.iter() {
+                for (column, value) in
+                    catalog.columns().iter().zip(values.iter())
+                {
+                    if !column.is_valid_value(value) {
+                        invalid_input!(
+                            "Cannot create table {:?}: {} is not a valid \
+                             value for column {:?} of table {:?}",
+                            table_name,
+                            value,
+                            column.name(),
+                            catalog_name
+                        );
+                    }
+                }
+            }
+        }
+        self.tables.insert(table_name.clone(), table);
+        let result = self
+            .insert_rows(
+                Insert::into(VALIDATION_TABLE_NAME).rows(validation_rows),
+            )
+            .and_then(|()| {
+                self.insert_rows(
+                    Insert::into(COLUMNS_TABLE_NAME).rows(columns_rows),
+                )
+            })
+            .and_then(|()| {
+                self.insert_rows(
+                    Insert::into(TABLES_TABLE_NAME).rows(tables_rows),
+                )
+            });
+        if result.is_err() {
+            self.tables.remove(&table_name);
+        }
+        result
     }
 
     /// Removes an existing database table.  Returns an error without modifying
